@@ -12,6 +12,7 @@ class Snapshot:
         self.live = {}            # id(live) -> live (keeps the objects alive)
         self.roots = {k: self.clone(v) for k, v in roots.items()}
         self.fields = dict(ip.state.fields)
+        self.field_len = dict(ip.state.field_len)
         self.class_over = {k: self.clone(v) for k, v in ip.state.class_over.items()}
         self.ghost = {k: self.clone(v) for k, v in ip.state.ghost.items()}
         self.n_events = len(ip.state.events)
@@ -93,7 +94,11 @@ class SnapState:
         key = (so.cls.name, name)
         arr, kind = self.snap.fields[key]
         ip = self.snap.ip
-        v = ip.wrap(z3.Select(arr, so.ref), kind)
+        t = z3.simplify(z3.Select(arr, so.ref))
+        la = self.snap.field_len.get(key)
+        if la is not None and ops.known_len(t) is None and t.get_id() not in ops.LEN_TERM:
+            ops.set_len_term(t, z3.simplify(z3.Select(la, so.ref)))
+        v = ip.wrap(t, kind)
         if isinstance(v, SymObj):
             v.st = self
         return v
